@@ -9,11 +9,12 @@ of consensus type `kind` created at height `created`, spent in a block at height
 import BytomModel.Model.Wallet
 import BytomModel.Lemmas.Wallet
 import BytomModel.Props.C24
+import BytomModel.Lemmas.Project
 
 set_option linter.unusedSimpArgs false
 
 namespace BytomModel.Props.C25
-open BytomModel.Model.Wallet BytomModel.Lemmas.Wallet BytomModel.Props.C24
+open BytomModel.Model.Wallet BytomModel.Lemmas.Wallet BytomModel.Lemmas.Project BytomModel.Props.C24
 
 /-- assumptions on the consensus parameters under which freshly scanned outputs are safe -/
 structure ParamsOK (P : Params) : Prop where
@@ -222,6 +223,77 @@ theorem scan_usable_implies_spendable (P : Params) (hP : ParamsOK P) (chain : Li
     (hu : dbGet id (rescan P chain) = some u) (huse : usable u H = true) :
     spendableAt P u.gKind u.gHeight (H + 1) = true :=
   fresh_usable_implies_spendable P hP u (rescan_all_fresh P chain id u hu) H huse
+
+/-! ### the ghost fields are the consensus entry -/
+
+/-- `ghost_is_consensus_entry`: along every globally valid walk without wallet vote outputs, each
+    wallet UTXO is an output of the GLOBAL unspent set of the wallet's chain, and the consensus
+    type and creation height the theorems above use for it (`gKind`, `gHeight`) are the ones the
+    global set records for that output. -/
+theorem ghost_is_consensus_entry (P : Params) (steps : List Step) (hw : GWalkOK P true steps [])
+    (hc : GChainOK P (walk P steps ([], [])).1) (id : Nat) (u : Utxo)
+    (hu : dbGet id (walk P steps ([], [])).2 = some u) :
+    ∃ v, dbGet id (rescan (allOf P) (walk P steps ([], [])).1) = some v ∧
+      v.gKind = u.gKind ∧ v.gHeight = u.gHeight ∧ v.prog = u.prog ∧ v.amount = u.amount ∧ v.asset = u.asset := by
+  have h1 := wallet_eq_rescan_global P steps hw id
+  have h2 := rescan_is_owned_projection P _ hc id
+  rw [hu, h2] at h1
+  cases hv : dbGet id (rescan (allOf P) (walk P steps ([], [])).1) with
+  | none => rw [hv] at h1; simp at h1
+  | some v =>
+    rw [hv] at h1
+    simp only [Option.bind_some, Option.map_some] at h1
+    cases hown : owned P v with
+    | none => rw [hown] at h1; simp at h1
+    | some w =>
+      rw [hown] at h1
+      simp only [Option.map_some, Option.some.injEq] at h1
+      unfold owned at hown
+      split at hown
+      · simp only [Option.some.injEq] at hown
+        subst hown
+        have e1 := congrArg Utxo.gKind h1
+        have e2 := congrArg Utxo.gHeight h1
+        have e3 := congrArg Utxo.prog h1
+        have e4 := congrArg Utxo.amount h1
+        have e5 := congrArg Utxo.asset h1
+        simp only [core] at e1 e2 e3 e4 e5
+        exact ⟨v, rfl, e1.symm, e2.symm, e3.symm, e4.symm, e5.symm⟩
+      · cases hown
+
+/-- popping keeps a globally valid chain globally valid; pushing a globally valid block too -/
+theorem gchain_of_gwalk (P : Params) (nv : Bool) : ∀ (steps : List Step) (chain : List Block) (db : DB),
+    GChainOK P chain → GWalkOK P nv steps chain → GChainOK P (walk P steps (chain, db)).1 := by
+  intro steps
+  induction steps with
+  | nil => intro chain db hc _; exact hc
+  | cons st rest ih =>
+    intro chain db hc hw
+    cases st with
+    | push b =>
+      obtain ⟨hv, _, hrest⟩ := hw
+      simp only [walk, List.foldl_cons, stepW]
+      exact ih (b :: chain) _ ⟨hv, hc⟩ hrest
+    | pop =>
+      cases chain with
+      | nil => simp only [walk, List.foldl_cons, stepW]; exact ih [] db trivial hw
+      | cons b c => simp only [walk, List.foldl_cons, stepW]; exact ih c _ hc.2 hw
+
+/-- `usable_implies_spendable_global`: along every globally valid walk without wallet vote
+    outputs, a usable wallet UTXO that is not a restored coinbase/vote output is an output of
+    the global unspent set whose consensus entry (type, creation height) allows spending it at
+    the next height. -/
+theorem usable_implies_spendable_global (P : Params) (hP : ParamsOK P) (steps : List Step)
+    (hw : GWalkOK P true steps []) (id : Nat) (u : Utxo) (H : Nat)
+    (hu : dbGet id (walk P steps ([], [])).2 = some u)
+    (hnot : u.validHeight ≠ 0 ∨ u.gKind = 0) (huse : usable u H = true) :
+    ∃ v, dbGet id (rescan (allOf P) (walk P steps ([], [])).1) = some v ∧
+      spendableAt P v.gKind v.gHeight (H + 1) = true := by
+  obtain ⟨v, hv, hk, hh, _⟩ := ghost_is_consensus_entry P steps hw
+    (gchain_of_gwalk P true steps [] [] trivial hw) id u hu
+  refine ⟨v, hv, ?_⟩
+  rw [hk, hh]
+  exact usable_implies_spendable_partial P hP steps id u H hu hnot huse
 
 /-! ### the full statement fails: restored outputs (F15) -/
 
